@@ -242,4 +242,180 @@ class C10(CompSpec):
         return None
 
 
-SPECS = {c.prop: c for c in (C07, C08, C10)}
+def merge_counts(results, key):
+    out = {}
+    for r in results:
+        for k, v in (r.get(key) or {}).items():
+            out[k] = out.get(k, 0) + v
+    return out
+
+
+class C17(CompSpec):
+    prop = "C17"
+    per_chunk = {"quick": 220, "thorough": 2500}
+    rule = (
+        "configurations generated over the public models (GenericCommandParameters with and without names, integer or string blockers, optional estimates / ext / append flags / "
+        "lifecycle commands, 1-3 SubmissionGroups or the default group, SlurmConfig with random optional fields), dumped to JSON with dump(), reloaded with create_config_from_file(): "
+        "job order, names, commands, blockers, flags, groups, estimates, lifecycle commands and serialize() must be equal; then the valid file must be accepted by "
+        "JobSubmitter.run_submit_jobs (reaching a recorded sbatch) and each applicable single injected invalidity (dangling blocker, duplicate name, unknown / missing group, duplicate "
+        "group, differing max_nodes / poll_interval / hpc_type, estimate above walltime) must raise before any sbatch; non-trivial = >= 2 jobs with dependencies or >= 2 groups"
+    )
+
+    def tasks(self, tier, seed):
+        return [{"fn": "comp.c17:chunk", "args": {"seed": sub_seed(seed, c, "C17"), "count": self.per_chunk[tier]}} for c in range(28)]
+
+    def counters(self, tasks, results):
+        ok = [r for r in results if not r.get("error")]
+        return {"round_trips": total(ok, "cases"), "valid_configurations_submitted": total(ok, "acceptances"), "invalid_configurations_tried": total(ok, "injections"),
+                "by_invalidity": merge_counts(ok, "inj_counts"), "rejection_exception_types": merge_counts(ok, "exc_types")}
+
+    def floors(self, cov):
+        if cov.get("round_trips", 0) < 1000:
+            return "fewer than 1000 round trips"
+        if len(cov.get("by_invalidity", {})) < 9:
+            return "not every invalidity kind was tried"
+        return None
+
+
+class C18(CompSpec):
+    prop = "C18"
+    rule = (
+        "(a) every subset of the 9 optional SlurmConfig fields (512, exhaustive) with random values/account/walltime/prefix: the script written by HpcManager.submit(dry_run) is parsed and "
+        "its #SBATCH set compared with an independent expectation table, last line = srun <run script>; (b) random squeue listings over the whole SLURM state vocabulary (12 live, 12 "
+        "terminal states, unknown tokens, absent ids, foreign ids, hostile whitespace / blank lines) served by a scripted squeue executable to a real HpcSubmitter.run() round: an id may "
+        "leave the persisted active set only if absent or terminal; (c) 12 kinds of sbatch reply (valid, decorated, without id, garbage, empty, non-zero) served by a scripted sbatch to a "
+        "real round: active set == ids really announced, failing sbatch executed 1+6 times; (d) random failure/success/permanent-error sequences against run_command with 0-7 retries: "
+        "executions counted by the scripted command == expectation (<= retries+1, stop at first success, stop at a listed permanent error); non-trivial per part: >= 2 optional fields / "
+        "listing mixing live and finished ids / unparsable reply / sequence starting with a failure"
+    )
+    cnt = {"quick": {"status": 120, "submit": 40, "retries": 200, "script_extra": 100}, "thorough": {"status": 600, "submit": 150, "retries": 1500, "script_extra": 1500}}
+
+    def tasks(self, tier, seed):
+        c = self.cnt[tier]
+        out = [{"fn": "comp.c18:chunk", "args": {"part": "script", "all_subsets": True, "chunk": k, "nchunks": 4, "seed": sub_seed(seed, k, "C18a")}} for k in range(4)]
+        out += [{"fn": "comp.c18:chunk", "args": {"part": "script", "count": c["script_extra"], "seed": sub_seed(seed, k, "C18a2")}} for k in range(4)]
+        for part in ("status", "submit", "retries"):
+            out += [{"fn": "comp.c18:chunk", "args": {"part": part, "count": c[part], "seed": sub_seed(seed, k, "C18" + part)}} for k in range(14)]
+        return out
+
+    def counters(self, tasks, results):
+        ok = [r for r in results if not r.get("error")]
+        out = {}
+        for r in ok:
+            for k, v in (r.get("stats") or {}).items():
+                if isinstance(v, int):
+                    out[k] = out.get(k, 0) + v
+                elif isinstance(v, list):
+                    out[k] = sorted(set(out.get(k, [])) | set(v))
+        out["cases_by_part"] = {}
+        for r in ok:
+            out["cases_by_part"][r["part"]] = out["cases_by_part"].get(r["part"], 0) + r["cases"]
+        out["all_512_optional_field_subsets_enumerated"] = sum(r["cases"] for t, r in zip(tasks, results) if t["args"].get("all_subsets") and not r.get("error")) == 512
+        return out
+
+    def floors(self, cov):
+        if not cov.get("all_512_optional_field_subsets_enumerated"):
+            return "the 512 optional-field subsets were not all enumerated"
+        if len(cov.get("states_seen", [])) < 25:
+            return f"only {len(cov.get('states_seen', []))} distinct scheduler states/tokens exercised"
+        for k in ("status_rounds", "submit_rounds", "retry_sequences"):
+            if cov.get(k, 0) < 100:
+                return f"{k} < 100"
+        return None
+
+
+class C19(CompSpec):
+    prop = "C19"
+    zygote = True
+    aggregate = False
+    task_timeout = 150
+    n = {"quick": 260, "thorough": 4000}
+    rule = (
+        "submissions of 3-8 independent jobs whose commands are `probe` followed by 0-5 tokens over an alphabet of spaces, tabs, both quote characters, backslash, $ * ? ; | & # ~ = "
+        "{ } ( ) < > ! ` %, empty arguments and non-ASCII, rendered with shlex.join, with hand-made double-quoted/escaped spelling, and with irregular inter-token whitespace; names over "
+        "[A-Za-z0-9][A-Za-z0-9_.-]*; all append_job_name / append_output_dir combinations; exit codes 0, 1, 2, 77, 126, 127, 128, 200, 255; run through the real submit-jobs -> sbatch -> "
+        "jade-internal run-jobs path; the probe reports argv / env at the process boundary; oracle: argv == shlex.split(command) + documented extras, JADE_JOB_NAME / JADE_RUNTIME_OUTPUT, "
+        "own .o/.e files with exactly the job's tokens, row with name, real exit code, status finished and the HPC id of the node that ran it; non-trivial = run in which >= 3 jobs with "
+        "at least one quoting character were checked; distinct by schedule signature and command set"
+    )
+
+    def tasks(self, tier, seed):
+        from comp import c19
+
+        out = []
+        for i in range(self.n[tier]):
+            s = sub_seed(seed, i, "C19")
+            rng = random.Random(s)
+            scen = c19.gen(rng, tier)
+            out.append({"fn": "sim", "args": {"scen": scen, "seed": s, "id": i, "cls": "comp.c19:C19Sim", "trace_n": 100}})
+        return out
+
+    def shape(self, t, r):
+        import hashlib
+
+        return hashlib.sha1("|".join(j["command"] for j in t["args"]["scen"]["jobs"]).encode()).hexdigest()[:10]
+
+    def nontrivial(self, t, r):
+        hard = sum(1 for j in t["args"]["scen"]["jobs"] if any(c in j["command"] for c in "'\"\\$"))
+        return (r.get("c19_checked") or 0) >= 3 and hard >= 1
+
+    def sample(self, t, r):
+        return {"jobs": [{k: j[k] for k in ("name", "command", "rc", "append_job_name", "append_output_dir")} for j in t["args"]["scen"]["jobs"][:4]], "seed": t["args"]["seed"], "jobs_checked": r.get("c19_checked")}
+
+    def counters(self, tasks, results):
+        ok = [r for r in results if not r.get("error")]
+        return {"job_launches_checked": total(ok, "c19_checked"), "renderings": hist(j["style"] for t in tasks for j in t["args"]["scen"]["jobs"]),
+                "exit_codes": hist(j["rc"] for t in tasks for j in t["args"]["scen"]["jobs"]),
+                "append_flag_combinations": hist(f"{j['append_job_name']}/{j['append_output_dir']}" for t in tasks for j in t["args"]["scen"]["jobs"])}
+
+    def floors(self, cov):
+        if cov.get("job_launches_checked", 0) < 500:
+            return "fewer than 500 job launches checked"
+        return None
+
+
+class C20(CompSpec):
+    prop = "C20"
+    rule = (
+        "(a) 1-6 real processes per case (forked, concurrent) log 0-40 generated events each through the real setup_event_logging + log_event, to their own *events.log files and to one "
+        "shared file; events over 7 names (spaces, dots, non-ASCII), all JSON value types nested, quotes / newlines / backslashes / non-ASCII in strings, colliding timestamps; every event "
+        "carries a unique id; EventsSummary(output) is built three times (fresh, again, preload=True): per name the multiset of (timestamp, source, category, message, data) must equal "
+        "what was written, timestamps non-decreasing, all three equal; (b) sample sequences (increasing, decreasing, constant, zero, mixed, minimum first, maximum first; 1-50 samples) "
+        "injected under ResourceMonitorAggregator for cpu/memory/disk/network and per-process statistics; the JSON written by finalize must carry the true min, max, mean; (c) result sets "
+        "of 1-14 jobs over {successful, failed, canceled, missing} through the real completion step: results.json summary, missing list, partition and show_results totals; also checked on "
+        "every completed simulation of the system campaigns; non-trivial = >= 10 events from >= 2 processes / >= 3 samples / >= 3 classes present"
+    )
+    cnt = {"quick": {"events": 80, "stats": 500, "tallies": 120}, "thorough": {"events": 400, "stats": 2500, "tallies": 700}}
+
+    def tasks(self, tier, seed):
+        c = self.cnt[tier]
+        out = []
+        for part in ("events", "stats", "tallies"):
+            out += [{"fn": "comp.c20:chunk", "args": {"part": part, "count": c[part], "seed": sub_seed(seed, k, "C20" + part)}} for k in range(14)]
+        return out
+
+    def counters(self, tasks, results):
+        ok = [r for r in results if not r.get("error")]
+        out = {"cases_by_part": {}}
+        for r in ok:
+            out["cases_by_part"][r["part"]] = out["cases_by_part"].get(r["part"], 0) + r["cases"]
+            for k, v in (r.get("stats") or {}).items():
+                if isinstance(v, int):
+                    out[k] = out.get(k, 0) + v
+                elif isinstance(v, dict):
+                    d = out.setdefault(k, {})
+                    for kk, vv in v.items():
+                        d[kk] = d.get(kk, 0) + vv
+        return out
+
+    def floors(self, cov):
+        if cov.get("events_written", 0) < 5000:
+            return "fewer than 5000 events written"
+        if cov.get("stat_sequences", 0) < 1000:
+            return "fewer than 1000 statistic sequences"
+        if cov.get("result_sets", 0) < 300:
+            return "fewer than 300 result sets"
+        return None
+
+
+SPECS = {c.prop: c for c in (C07, C08, C10, C17, C18, C19, C20)}
